@@ -101,6 +101,14 @@ def place(n):
         return None if b is None else b + "." + n["name"]
     if k == "MethodCall" and n.get("method") in ("as_ref", "as_mut", "unwrap", "as_deref", "as_deref_mut", "clone", "by_ref") and not n.get("args"):
         return place(n["recv"])
+    if k == "Index":
+        b = place(n["base"])
+        i = place(n["index"])
+        if i is None and strip(n["index"]).get("k") == "Cast":
+            i = place(strip(n["index"])["e"])
+        if i is None and lit_int(n["index"]) is not None:
+            i = str(lit_int(n["index"]))
+        return None if b is None else "%s[%s]" % (b, i if i is not None else "?")
     return None
 
 
@@ -124,7 +132,7 @@ def sp(n):
 
 
 def in_macro(n, *names):
-    m = n.get("mac") or []
+    m = [x.split("::")[-1] for x in (n.get("mac") or [])]
     return any(x in m for x in names)
 
 
